@@ -270,6 +270,7 @@ static void run_client(void)
 		memset(&P[0], 0, sizeof P[0]); P[0].fd = sv[1]; nP = 1;
 	} else if (transport == T_TCP) {
 		listener = hc_listener(&lport);
+		if (listener < 0) { hc_exec_end(); return; }
 		c_evcon = evhttp_connection_base_new(hc_base, NULL, "127.0.0.1", (ev_uint16_t)lport);
 	} else {
 		c_evcon = evhttp_connection_base_new(hc_base, NULL, "127.0.0.1", (ev_uint16_t)hc_refused_port);
